@@ -10,7 +10,7 @@ META = {
                  "refines 'le' to 'lt'). R05.2: typestate Fresh/Stale over every CdnsDecoder member: each read through m_p "
                  "happens directly after a refill check with m_p unmoved. R05.3: the read path is exception-transparent "
                  "(no handler between the decoder and CdnsReader::read_block's caller) and a block is returned only after "
-                 "CdnsBlockRead::read returned. R05.3 no-input-after-block: between the completed block.read() and the return of that block read_block calls nothing that can reach read_to_buffer (positive control in tu/rule_controls.cpp).",
+                 "CdnsBlockRead::read returned. R05.3 no-input-after-block: between the completed block.read() and the return of that block read_block calls nothing that can reach read_to_buffer (positive control in tu/rule_controls.cpp). R05.4: m_input is touched only by read_to_buffer and the constructor. R05.5: a decoder member that stores a window position or a value read through the window is re-initialised by the refill (or is only consulted under a key that is) - positive control.",
     "explanation": "Abstract interpretation of one function plus a typestate pass over the decoder class; necessary conditions of "
                    "'end of input is always detected' valid for every input length. Equality of the returned blocks with the "
                    "prefix's blocks is not decided.",
